@@ -66,14 +66,14 @@ func runC03(r *lib.Run) {
 					break
 				}
 				if err != nil {
-					r.ViolateErr("chain-diff-error", err, wit(cfg, r.Seed, idx, map[string]interface{}{"step": step, "edits": ed}))
+					r.ViolateErr("diff-error", err, wit(cfg, r.Seed, idx, map[string]interface{}{"step": step, "edits": ed}))
 					break
 				}
 				if r.Guard("UnmarshalNotifications", wit(cfg, r.Seed, idx, map[string]interface{}{"step": step}), func() { err = ytypes.UnmarshalNotifications(cfg.SchemaWith(replica), ns) }) {
 					break
 				}
 				if err != nil {
-					r.ViolateErr("chain-apply-error", err, wit(cfg, r.Seed, idx, map[string]interface{}{"step": step, "edits": ed, "notifications": notifStrings(ns)}))
+					r.ViolateErr("apply-error", err, wit(cfg, r.Seed, idx, map[string]interface{}{"step": step, "edits": ed, "notifications": notifStrings(ns)}))
 					break
 				}
 				ds := lib.DiffObs(cfg.Observe(cur), cfg.Observe(replica), lib.DiffOpts{})
@@ -87,7 +87,7 @@ func runC03(r *lib.Run) {
 							both.Order[lp] = v
 						}
 					}
-					r.Violate("chain-replica-differs", c03Feat(both, d), d.String(), wit(cfg, r.Seed, idx, map[string]interface{}{"step": step, "edits": ed, "delta": d.String(), "notifications": notifStrings(ns)}))
+					r.Violate("applied-differs", c03Feat(both, d), d.String(), wit(cfg, r.Seed, idx, map[string]interface{}{"step": step, "edits": ed, "delta": d.String(), "notifications": notifStrings(ns)}))
 				}
 				r.Hit("chain-step")
 				if len(ds) > 0 {
@@ -123,12 +123,6 @@ func c03Feat(o *lib.Obs, d lib.Delta) string {
 	}
 	if zeroVal(d.A) || zeroVal(d.B) {
 		feat += "+zero-value"
-	}
-	for ol := range o.Order {
-		if strings.HasPrefix(d.Path, ol+"[") {
-			feat += "+inside-ordered-list"
-			break
-		}
 	}
 	return feat
 }
@@ -201,12 +195,12 @@ func c03Pair(r *lib.Run, cfg *lib.Cfg, idx int, a, b ygot.GoStruct, edits []stri
 			continue
 		}
 		if err != nil {
-			r.ViolateErr("diff-error:"+name, err, w(map[string]interface{}{}))
+			r.ViolateErr("diff-error", err, w(map[string]interface{}{"api": name}))
 			continue
 		}
 		ups, dels, atomics, err := c03Flatten(cfg, ns, ia, ib)
 		if err != nil {
-			r.ViolateErr("diff-path-unparseable:"+name, err, w(map[string]interface{}{"notifications": notifStrings(ns)}))
+			r.ViolateErr("diff-path-unparseable", err, w(map[string]interface{}{"notifications": notifStrings(ns)}))
 			continue
 		}
 		if mode == 0 {
@@ -227,14 +221,14 @@ func c03Pair(r *lib.Run, cfg *lib.Cfg, idx int, a, b ygot.GoStruct, edits []stri
 		for _, u := range ups {
 			pb, inB := ib[u.path]
 			if !inB {
-				r.Violate("update-not-in-b:"+name, "path", fmt.Sprintf("update for %s which is not a leaf of b", u.path), w(map[string]interface{}{"update": u.path, "notifications": notifStrings(ns)}))
+				r.Violate("update-not-in-b", "path", fmt.Sprintf("update for %s which is not a leaf of b", u.path), w(map[string]interface{}{"update": u.path, "notifications": notifStrings(ns)}))
 				continue
 			}
 			if underAtomic(u.path) {
 				continue // atomic notifications restate the whole ordered list
 			}
 			if pa, inA := ia[u.path]; inA && oa.Leaves[pa].Val == ob.Leaves[pb].Val {
-				r.Violate("update-not-minimal:"+name, leafFeatOf(ob.Leaves[pb]), fmt.Sprintf("update for unchanged leaf %s = %s", u.path, ob.Leaves[pb].Val), w(map[string]interface{}{"update": u.path, "notifications": notifStrings(ns)}))
+				r.Violate("update-not-minimal", leafFeatOf(ob.Leaves[pb]), fmt.Sprintf("update for unchanged leaf %s = %s", u.path, ob.Leaves[pb].Val), w(map[string]interface{}{"update": u.path, "notifications": notifStrings(ns)}))
 			}
 		}
 		for _, d := range dels {
@@ -250,13 +244,13 @@ func c03Pair(r *lib.Run, cfg *lib.Cfg, idx int, a, b ygot.GoStruct, edits []stri
 					}
 				}
 				if !isAtomicContainer {
-					r.Violate("delete-not-in-a:"+name, "path", fmt.Sprintf("delete for %s which is not a leaf set in a", d), w(map[string]interface{}{"delete": d, "notifications": notifStrings(ns)}))
+					r.Violate("delete-not-in-a", "path", fmt.Sprintf("delete for %s which is not a leaf set in a", d), w(map[string]interface{}{"delete": d, "notifications": notifStrings(ns)}))
 				}
 				continue
 			}
 			if _, inB := ib[d]; inB {
 				_ = pa
-				r.Violate("delete-of-leaf-in-b:"+name, leafFeatOf(oa.Leaves[pa]), fmt.Sprintf("delete for %s which is set in b", d), w(map[string]interface{}{"delete": d, "notifications": notifStrings(ns)}))
+				r.Violate("delete-of-leaf-in-b", leafFeatOf(oa.Leaves[pa]), fmt.Sprintf("delete for %s which is set in b", d), w(map[string]interface{}{"delete": d, "notifications": notifStrings(ns)}))
 			}
 		}
 		// (1) apply to a regenerated copy of a
@@ -265,7 +259,7 @@ func c03Pair(r *lib.Run, cfg *lib.Cfg, idx int, a, b ygot.GoStruct, edits []stri
 			continue
 		}
 		if err != nil {
-			r.ViolateErr("apply-error:"+name, err, w(map[string]interface{}{"notifications": notifStrings(ns)}))
+			r.ViolateErr("apply-error", err, w(map[string]interface{}{"notifications": notifStrings(ns)}))
 			continue
 		}
 		ds := lib.DiffObs(ob, cfg.Observe(ac), lib.DiffOpts{IgnoreOrder: mode == 0})
@@ -275,7 +269,7 @@ func c03Pair(r *lib.Run, cfg *lib.Cfg, idx int, a, b ygot.GoStruct, edits []stri
 				continue
 			}
 			bad++
-			r.Violate("applied-differs:"+name, c03Feat(both, d), d.String(), w(map[string]interface{}{"delta": d.String(), "notifications": notifStrings(ns)}))
+			r.Violate("applied-differs", c03Feat(both, d), d.String(), w(map[string]interface{}{"delta": d.String(), "notifications": notifStrings(ns)}))
 		}
 		if bad == 0 {
 			r.Hit("applied-ok")
@@ -339,13 +333,13 @@ func c03Pair(r *lib.Run, cfg *lib.Cfg, idx int, a, b ygot.GoStruct, edits []stri
 				err = ytypes.UnmarshalNotifications(cfg.SchemaWith(ac), []*gpb.Notification{ns})
 			}) {
 				if err != nil {
-					r.ViolateErr("apply-error:MapToSinglePath", err, w(map[string]interface{}{"notification": lib.Clip(ns.String(), 2000)}))
+					r.ViolateErr("apply-error", err, w(map[string]interface{}{"notification": lib.Clip(ns.String(), 2000)}))
 				} else {
 					for _, d := range lib.DiffObs(ob, cfg.Observe(ac), lib.DiffOpts{IgnoreOrder: true}) {
 						if d.What == "entry" || d.What == "presence" {
 							continue
 						}
-						r.Violate("applied-differs:MapToSinglePath", c03Feat(both, d), d.String(), w(map[string]interface{}{"delta": d.String()}))
+						r.Violate("applied-differs", c03Feat(both, d), d.String(), w(map[string]interface{}{"delta": d.String()}))
 					}
 					r.Hit("single-path")
 				}
